@@ -193,16 +193,19 @@ Definition aval_eqb (a b : aval) : bool :=
 (* a field can be served from the first k registers of the window starting at [start] *)
 Definition reachable (start k : N) (f : field) : bool := (start <=? f_addr f) && (f_end f <=? start + k).
 
-Definition entry_ok (ms : N) (fields : list field) (start k : N) (e : nat * fout) : bool :=
+(* [full]: the device answered the request as sent (complete reply).  Then EVERY member must come
+   back with the direct decoding of its own device's memory -- whatever window the request asked
+   for; an error mark is a violation.  Only a truncated reply may leave members unreachable. *)
+Definition entry_ok (ms : N) (fields : list field) (full : bool) (start k : N) (e : nat * fout) : bool :=
   let f := nth (fst e) fields nil_field in
   match snd e with
   | FValue v =>
-      reachable start k f &&
+      (full || reachable start k f) &&
       match direct_value (mem_word (dev_seed ms (f_server f) (f_unit f))) f with
       | Some w => aval_eqb v w
       | None => false
       end
-  | FError => negb (reachable start k f)
+  | FError => negb full && negb (reachable start k f)
   end.
 Definition has_error (es : list (nat * fout)) : bool :=
   existsb (fun e => match snd e with FError => true | _ => false end) es.
@@ -220,16 +223,17 @@ Fixpoint entries_eqb (a b : list (nat * fout)) : bool :=
   | _, _ => false
   end.
 
-(* one request: lenient mode returns one entry per member, a value (the direct decoding of the
-   member's own device memory) exactly for the reachable ones, and flags errors iff there is an
-   unreachable one; strict mode fails as a whole iff some member is unreachable and otherwise
-   returns the same entries *)
+(* one request: lenient mode returns one entry per member; after a complete reply (x_k = x_qty)
+   every entry is a value, the direct decoding of the member's own device memory; after a
+   truncated reply a value exactly for the reachable members and an error for the others; errors
+   are flagged iff there is one; strict mode fails as a whole iff lenient mode marked an error
+   (never after a complete reply) and otherwise returns the same entries *)
 Definition c05_request (ms : N) (fields : list field) (x : xdesc) : bool :=
   match x_lenient x with
   | XEntries had es =>
       forallb (fun e => (fst e <? length fields)%nat) es &&
       forallb (fun e => same_dev (x_server x) (x_unit x) (nth (fst e) fields nil_field)) es &&
-      forallb (entry_ok ms fields (x_start x) (x_k x)) es &&
+      forallb (entry_ok ms fields (x_k x =? x_qty x) (x_start x) (x_k x)) es &&
       Bool.eqb had (has_error es) &&
       match x_strict x with
       | XFailed => has_error es
